@@ -465,7 +465,8 @@ def run_stream(ctx, case, workdir, n):
     # A: batches as given; B: the same tuples, one call each (monitor reference for batch independence)
     sinkA, sinkB = [], []
     A = make_client(workdir, 2 * n, subs, sinkA)
-    B = make_client(workdir, 2 * n + 1, subs, sinkB)
+    single = bool(case.get("single_client"))      # many-key histories: the one-call-per-tuple reference client is left out (cost)
+    B = None if single else make_client(workdir, 2 * n + 1, subs, sinkB)
     outs = []
     raisedA = []
     seenwires = []
@@ -496,7 +497,7 @@ def run_stream(ctx, case, workdir, n):
         if raised:
             o += ";raised=" + raised
         outs.append(o)
-        for w in b:
+        for w in ([] if single else b):
             try:
                 B.remote_announce_v2([w])
             except Exception:
@@ -528,7 +529,7 @@ def run_stream(ctx, case, workdir, n):
     # announcement that carries a number as seqnum may only be replaced by one carrying a strictly greater number; one that
     # carries none / not a number does not carry a higher one either.  Stored announcements without a numeric seqnum: no demand.
     num = lambda v: isinstance(v, (int, float)) and v == v
-    for name, sink in (("batched", sinkA), ("single", sinkB)):
+    for name, sink in ((("batched", sinkA),) if single else (("batched", sinkA), ("single", sinkB))):
         last = {}
         for (key_s, ann) in sink:
             idx = (str(ann["service-name"]), kid(key_s))        # per verifying key, whatever the spelling
@@ -555,7 +556,7 @@ def run_stream(ctx, case, workdir, n):
         ctx.count("stored-seqnum:" + ("missing" if "seqnum" not in v[0] else "0" if (num(s0) and s0 == 0) else "negative" if (num(s0) and s0 < 0)
                                        else "huge" if (num(s0) and s0 >= 2**63) else "other-number" if num(s0) else "not-a-number"))
     # ---- monitor (c): a bad announcement does not stop the others of its batch
-    same = ([(k, T.content(a)) for (k, a) in sinkA] == [(k, T.content(a)) for (k, a) in sinkB] and
+    same = single or ([(k, T.content(a)) for (k, a) in sinkA] == [(k, T.content(a)) for (k, a) in sinkB] and
             [(i, T.content(v[0])) for i, v in A._inbound_announcements.items()] == [(i, T.content(v[0])) for i, v in B._inbound_announcements.items()])
     if not same:
         ctx.violation("announcements batched with a bad one were not processed: deliveries differ from the same tuples sent one per call "
@@ -581,9 +582,9 @@ CORPUS = [
     {"reuse_sig": True},
     # other spellings of a genuine key string on genuinely signed stale / fresh announcements (seed C34-c accepted them as new identities)
     {"spellings": True},
-    # the table of remembered announcements must not forget: a victim publishes seqnum 1..5, 300 one-shot keys announce, then
-    # the victim's seqnum 3 is replayed (seed C34-e evicted the oldest entries beyond 256)
-    {"many_keys": 300},
+    # the table of remembered announcements must not forget: a victim publishes seqnum 1..5, 257 one-shot keys announce, then
+    # the victim's seqnum 3 is replayed (seed C34-e evicted the oldest entries beyond 256; 2 victims + 257 one-shot keys)
+    {"many_keys": 257},
 ]
 
 
@@ -608,7 +609,8 @@ def many_keys_history(rng, nkeys):
             x = wire(v, {"service-name": "storage", "seqnum": sq, "nickname": "victim%d" % v, "x": sq}, "new")
             hist[v].append(x)
             batches.append([x])
-    oneshot = [wire(2 + j, {"service-name": "storage", "seqnum": rng.randrange(1, 100), "nickname": "one%d" % j}, "new") for j in range(nkeys)]
+    # the crowd's announcements are as small as an announcement can be: the client rewrites its whole YAML cache on every accept
+    oneshot = [wire(2 + j, {"service-name": "storage"}, "new") for j in range(nkeys)]
     pos = 0
     while pos < len(oneshot):
         step = rng.choice([20, 50, 80])
@@ -621,7 +623,7 @@ def many_keys_history(rng, nkeys):
         batches.append([dict(hist[v][2], meta=dict(hist[v][2]["meta"], kind="old"))])          # seqnum 3 again: refused, 5 stays
         batches.append([dict(hist[v][4], meta=dict(hist[v][4]["meta"], kind="replay"))])       # seqnum 5 again: duplicate
     batches.append([wire(0, {"service-name": "storage", "seqnum": 6, "nickname": "victim0", "x": 6}, "new")])
-    return {"seeds": seeds, "subs": ["storage"], "batches": batches}
+    return {"seeds": seeds, "subs": ["storage"], "batches": batches, "single_client": True}
 
 
 def corpus_case(spec):
@@ -694,8 +696,8 @@ def run(ctx):
                 for _ in range(ctx.budget(600, 8000)):
                     cases.append(gen_stream(ctx.rng))
                 mrng = ctx.subrng("many-keys")
-                for _ in range(ctx.budget(2, 25)):
-                    cases.append(many_keys_history(mrng, mrng.choice([258, 270, 300, 330])))
+                for _ in range(ctx.budget(0, 25)):
+                    cases.append(many_keys_history(mrng, mrng.choice([256, 258, 263, 270, 300])))
         impl, lines = [], []
         for n, case in enumerate(cases):
             out, line = run_stream(ctx, case, workdir, n)
